@@ -392,8 +392,26 @@ class Wtp:
             temp_file.close()
 
         if self.backup_db_path.exists():
-            self.db_path.unlink(True)
-            self.backup_db_path.rename(self.db_path)
+            # Restore from the backup.  Several processes may open the same
+            # path at the same time; only one of them may restore, and the
+            # others must not connect while it does (SQLite's own file
+            # locking on a side file serves as the inter-process lock).
+            restore_lock = sqlite3.connect(
+                str(self.db_path) + ".restore-lock", timeout=600
+            )
+            try:
+                restore_lock.execute("BEGIN EXCLUSIVE")
+                if self.backup_db_path.exists():
+                    # The write-ahead log of the database that is being
+                    # replaced must go first: SQLite would replay it onto
+                    # the restored file and resurrect pages written after
+                    # the backup.  The backup file is removed last (by the
+                    # rename), so a crash in between redoes the restore.
+                    for suffix in ("-wal", "-shm"):
+                        Path(str(self.db_path) + suffix).unlink(True)
+                    self.backup_db_path.replace(self.db_path)
+            finally:
+                restore_lock.close()
 
         self.db_conn = sqlite3.connect(self.db_path, check_same_thread=False)
         self.db_conn.executescript(
@@ -420,10 +438,18 @@ class Wtp:
     def backup_db(self) -> None:
         self.backup_db_path.unlink(True)
         self.db_conn.commit()
-        backup_conn = sqlite3.connect(self.backup_db_path)
+        # Write the copy under another name and rename it when it is
+        # complete: the next open installs whatever is at backup_db_path,
+        # so a half-written file there would cost all pages.
+        tmp_path = self.backup_db_path.with_name(
+            self.backup_db_path.name + ".incomplete"
+        )
+        tmp_path.unlink(True)
+        backup_conn = sqlite3.connect(tmp_path)
         with backup_conn:
             self.db_conn.backup(backup_conn)
         backup_conn.close()
+        tmp_path.replace(self.backup_db_path)
 
     def close_db_conn(self) -> None:
         assert self.db_path
